@@ -230,6 +230,13 @@ def scenarioOutcome (scen : String) (status : Nat) (bogus : Bool) (id : Str) : O
   -- (outcome, handler ran, framework-format body)
   let okRsp : Response := { status := status, headers := [(hContentType, ctJson)], body := [] }
   if scen == "ok" || scen == "typed-ok" then some (.ok okRsp, true, false)
+  else if scen == "okdecl" then
+    some (.ok { okRsp with headers := [(hContentType, ctJson), (Error.strBytes "x_one", Error.strBytes "declared")] },
+          true, false)
+  else if scen == "okdeclhdr" then
+    some (.ok { okRsp with headers := [(hContentType, ctJson), (Error.strBytes "x_one", Error.strBytes "declared"),
+                                        (hRequestId, Error.strBytes "bogus"), (hRequestId, Error.strBytes "bogus2")] },
+          true, false)
   else if scen == "okhdr" then
     some (.ok { okRsp with headers := [(hRequestId, Error.strBytes "bogus"), (hRequestId, Error.strBytes "bogus2"),
                                         (hContentType, ctJson)] }, true, false)
@@ -248,7 +255,9 @@ def scenarioOutcome (scen : String) (status : Nat) (bogus : Bool) (id : Str) : O
 
 def handleLv (id : String) (inp impl : List String) : String :=
   match inp with
-  | [scen, status, bogus] =>
+  | [mode, scen, status, bogus, cid] =>
+    -- `mode` (handler task mode) and `cid` (what the client put into its own x-request-id request
+    -- header) do not enter the model: the code as it stands ignores both when it stamps the id
     match status.toNat? with
     | none => bad id "status"
     | some status =>
@@ -259,13 +268,13 @@ def handleLv (id : String) (inp impl : List String) : String :=
         let r := wrap o rid
         let nx := (HMap.getAll hRequestId r.headers).length
         let m := [toString r.status, toString nx, if ran then "1" else "na", if fw then "1" else "na",
-                  "1", "0", "json", "1"]
-        let cls := s!"lv-{scen}-{if bogus == "1" && scen.startsWith "herr-" then "bogus" else "plain"}"
+                  "1", "0", "json", "1", "0"]
+        let cls := s!"lv-{mode}-{scen}-{if bogus == "1" && scen.startsWith "herr-" then "bogus" else "plain"}-{cid}"
         -- spec, from the property: the status the handler/framework chose; exactly one
         -- x-request-id; equal to the id the handler saw (when a handler ran) and to the id in a
         -- framework-format body; never seen before in this run; internal text not sent
         let sp := match impl with
-          | [st, nxs, eqSeen, eqBody, fresh, leak, _ctype, wf] =>
+          | [st, nxs, eqSeen, eqBody, fresh, leak, _ctype, wf, _adopt] =>
             st == toString status && nxs == "1" &&
             (if ran then eqSeen == "1" else eqSeen == "na" || eqSeen == "1") &&
             (if fw then eqBody == "1" else eqBody == "na" || eqBody == "1") &&
